@@ -117,10 +117,10 @@ Proof.
       assert (Hsz : kfmt_ringBufferSize < two63) by reflexivity. unfold two63 in Hsz.
       unfold glen. destruct (N.ltb_spec (N.of_nat k) (N.of_nat (length p))); [|lia].
       unfold gidx. rewrite Nat2N.id, Eb.
-      cbn [f_ringBuffer_buffer f_ringBuffer_rIndex f_ringBuffer_wIndex rbuf rIdx wIdx].
+      cbn [f_ringBuffer_buffer f_ringBuffer_rIndex f_ringBuffer_wIndex set_f_ringBuffer_buffer set_f_ringBuffer_rIndex set_f_ringBuffer_wIndex rbuf rIdx wIdx].
       rewrite gsets_small by (unfold two63; lia).
       rewrite buf_list_set by (unfold ring_len, kfmt_ringBufferLen; unfold kfmt_ringBufferSize in Hw; exact Hw).
-      cbn [f_ringBuffer_buffer f_ringBuffer_rIndex f_ringBuffer_wIndex rbuf rIdx wIdx].
+      cbn [f_ringBuffer_buffer f_ringBuffer_rIndex f_ringBuffer_wIndex set_f_ringBuffer_buffer set_f_ringBuffer_rIndex set_f_ringBuffer_wIndex rbuf rIdx wIdx].
       rewrite ring_mask_const, !gw64_small' by lia. unfold rb1, ring_size.
       replace (N.of_nat k + 1) with (N.of_nat (S k)) by lia.
       destruct (rIdx rb0 =? N.land (wIdx rb0 + 1) (kfmt_ringBufferSize - 1)); reflexivity. }
@@ -158,7 +158,7 @@ Proof.
   assert (Hlen : ring_len = kfmt_ringBufferSize) by reflexivity.
   unfold two63 in *.
   unfold go_kfmt_ringBuffer_Read, ring_read, to_go.
-  cbn [f_ringBuffer_buffer f_ringBuffer_rIndex f_ringBuffer_wIndex rbuf rIdx wIdx].
+  cbn [f_ringBuffer_buffer f_ringBuffer_rIndex f_ringBuffer_wIndex set_f_ringBuffer_buffer set_f_ringBuffer_rIndex set_f_ringBuffer_wIndex rbuf rIdx wIdx].
   rewrite !buf_list_glen.
   rewrite (gslt_small (rIdx rb) (wIdx rb)), (gslt_small (wIdx rb) (rIdx rb)) by (unfold two63; lia).
   destruct (N.ltb_spec (rIdx rb) (wIdx rb)) as [A|A].
